@@ -18,6 +18,8 @@ type GenOpts struct {
 	// Inheritance boosts allOf: more object types, more bases, more nested
 	// objects that inherit (C10 / C12 / C20).
 	Inheritance bool
+	// PathHeavy: more resources, more path parameters, Path directives in macros (C13).
+	PathHeavy bool
 	// TopPasteAnywhere lets a top-level PASTE stand between later blocks (where
 	// the block before it cannot adopt it), not only right after JSIGHT.
 	TopPasteAnywhere bool
@@ -42,6 +44,9 @@ type gen struct {
 	// reservedF: path numbers reserved by declared tags named like the
 	// automatic tag of a path that will be generated later.
 	reservedF []int
+	// usedKeyTypes: string types already used as a property key (each at most
+	// once, so that no key can arrive twice through inheritance)
+	usedKeyTypes map[string]bool
 }
 
 type genMacro struct {
@@ -171,6 +176,10 @@ func (g *gen) propVal(self int, depth int) Val {
 		}
 	case 8:
 		return Val{Kind: "int", Int: g.num(), Optional: true}
+	case 9:
+		if depth < 2 && g.chance(1, 2, "arrobj") {
+			return Val{Kind: "arrobj", Obj: g.obj(self, depth+1, g.chance(1, 2, "arrobjAllOf"))}
+		}
 	}
 	return Val{Kind: "int", Int: g.num()}
 }
@@ -219,6 +228,16 @@ func (g *gen) obj(self int, depth int, allowAllOf bool) *Obj {
 	np := 1 + g.intn(3, "nprops")
 	for i := 0; i < np; i++ {
 		o.Props = append(o.Props, Prop{Key: fmt.Sprintf("k%d", g.num()), V: g.propVal(self, depth)})
+	}
+	// a property whose key is described by a string user type
+	if g.chance(1, 6, "keyRef") {
+		for i := self + 1; i < len(g.types); i++ {
+			if i >= 0 && g.types[i].kind == "str" && !g.usedKeyTypes[g.types[i].name] {
+				g.usedKeyTypes[g.types[i].name] = true
+				o.Props = append([]Prop{{Key: g.types[i].name, KeyRef: true, V: Val{Kind: "int", Int: g.num()}}}, o.Props...)
+				break
+			}
+		}
 	}
 	return o
 }
@@ -425,7 +444,7 @@ func (g *gen) paste(m *genMacro) *Dir {
 
 // GenDoc draws a document that the language reference says must be accepted.
 func GenDoc(t *rapid.T, o GenOpts) *Doc {
-	g := &gen{t: t, o: o, enumV: map[string]string{}}
+	g := &gen{t: t, o: o, enumV: map[string]string{}, usedKeyTypes: map[string]bool{}}
 	if o.MaxTypes == 0 {
 		o.MaxTypes = 7
 	}
@@ -450,6 +469,8 @@ func GenDoc(t *rapid.T, o GenOpts) *Doc {
 			k = "any"
 		case 3:
 			k = "arr"
+		case 4:
+			k = "str"
 		}
 		g.types = append(g.types, genType{name: fmt.Sprintf("@t%d", g.num()), kind: k})
 	}
@@ -485,6 +506,8 @@ func GenDoc(t *rapid.T, o GenOpts) *Doc {
 			d.Schema = &Schema{Notation: "jsight", Root: "obj", Obj: o}
 		case "int":
 			d.Schema = &Schema{Notation: "jsight", Root: "int", Int: g.num()}
+		case "str":
+			d.Schema = &Schema{Notation: "jsight", Root: "str", Str: fmt.Sprintf("text%d", g.num())}
 		case "regex":
 			d.Schema = &Schema{Notation: "regex", Regex: fmt.Sprintf("[a-z]{3}r%d", g.num())}
 		case "any":
@@ -640,6 +663,9 @@ func GenDoc(t *rapid.T, o GenOpts) *Doc {
 	declared := map[string]bool{}
 	verbs := []string{"GET", "POST", "PUT", "PATCH", "DELETE"}
 	nres := 1 + g.intn(4, "nres")
+	if o.PathHeavy {
+		nres = 2 + g.intn(5, "nresHeavy")
+	}
 	for i := 0; i < nres; i++ {
 		f := 0
 		if len(g.reservedF) > 0 {
@@ -648,7 +674,11 @@ func GenDoc(t *rapid.T, o GenOpts) *Doc {
 			f = g.num()
 		}
 		base := fmt.Sprintf("/p%d", f)
-		switch g.intn(7, "pathShape") {
+		shape := g.intn(7, "pathShape")
+		if o.PathHeavy && shape > 3 && g.chance(2, 3, "paramBoost") {
+			shape = g.intn(4, "pathShapeHeavy")
+		}
+		switch shape {
 		case 3:
 			base += fmt.Sprintf("/{a%d}/{c%d}/z/{d%d}", f, f, f)
 		case 0:
